@@ -5,9 +5,10 @@ cd "$(dirname "$0")"
 export GOFLAGS=-mod=mod GOPROXY=off GOSUMDB=off GOTOOLCHAIN=local
 mkdir -p .build evidence replays
 cd harness || exit 1
-go build -tags verif ./... || exit 1
-go build -tags verif -race -o /dev/null ./internal/... 2>/dev/null || true
+go build -tags verif ./internal/... || exit 1
+go build -tags verif -race ./internal/... 2>/dev/null || true
 for d in props/*/; do
+  go build -tags verif -o /dev/null "./$d" 2>/dev/null || true
   go build -tags verif -race -o /dev/null "./$d" 2>/dev/null || true
 done
 exit 0
